@@ -64,7 +64,7 @@ def shapes(tier):
         out.append(Shape("all_features", 2, True, False, (k,), False, False))
         out.append(Shape("features_of_type", 1, False, True, (k,), True, True))
     pairs = [("seqid", "start"), ("featuretype", "length"), ("strand", "file_order"), ("start", "end")]
-    if tier == "thorough":
+    if tier in ("quick", "thorough"):   # the full shape table costs seconds: both tiers decide all shapes
         pairs = list(itertools.permutations(ORDER_KEYS, 2))
         for k in ORDER_KEYS:
             for (nft, ftl), strand, as_tuple, rev in itertools.product(fts[1:], (False, True), (False, True), (False, True)):
